@@ -28,6 +28,7 @@ func checkC14(c *Check) {
 	c14Hashes(c)
 	c14Verify(c)
 	c14StoredHash(c)
+	c14WholePassword(c)
 	c14Providers(c)
 	c14Mapping(c)
 	c14Gate(c)
@@ -895,4 +896,89 @@ func c14IsAuth(c *Check, info *types.Info, call *ast.CallExpr) bool {
 		}
 	}
 	return true
+}
+
+// R3d: "succeeds only with the password last set" is lost when the hash is computed over less than the password: a
+// compute function that cuts, trims or folds its input stores a hash that other passwords also verify against.
+// Decided on the functions whose signature is that of the two hash registries (FuncHashCompute / FuncHashVerify): the
+// password parameter is never assigned, sliced, indexed or passed through a string-transforming function.
+func c14WholePassword(c *Check) {
+	p := c.P
+	c.Rule("R3d", "pass_table hash functions hash the whole password: in every function with the signature of the compute / verify registries the password parameter is never assigned, re-sliced, indexed or handed to a strings.* / bytes.* transformation", 4)
+	pk := p.Pkg(passTableRel)
+	if pk == nil {
+		c.Fail("R3d", "package", token.NoPos, "anchor unresolved")
+		return
+	}
+	var tc, tv types.Type
+	if o := pk.Types.Scope().Lookup("FuncHashCompute"); o != nil {
+		tc = o.Type().Underlying()
+	}
+	if o := pk.Types.Scope().Lookup("FuncHashVerify"); o != nil {
+		tv = o.Type().Underlying()
+	}
+	if tc == nil || tv == nil {
+		c.Fail("R3d", "registries", token.NoPos, "anchor unresolved: FuncHashCompute / FuncHashVerify")
+		return
+	}
+	p.AllFuncs([]*packagesPkg{pk}, func(fi *FuncInfo) {
+		if fi.Decl.Recv != nil || strings.HasSuffix(p.Fset.Position(fi.Decl.Pos()).Filename, "_test.go") {
+			return
+		}
+		sig := fi.Obj.Type().(*types.Signature)
+		var pw *types.Var
+		switch {
+		case types.Identical(sig, tc):
+			pw = sig.Params().At(1)
+		case types.Identical(sig, tv):
+			pw = sig.Params().At(0)
+		default:
+			return
+		}
+		if pw.Name() == "_" {
+			return
+		}
+		info := fi.Info()
+		c.SawFunc(fi.Name())
+		msg := ""
+		var stack []ast.Node
+		ast.Inspect(fi.Decl.Body, func(y ast.Node) bool {
+			if y == nil {
+				stack = stack[:len(stack)-1]
+				return true
+			}
+			stack = append(stack, y)
+			id, isID := y.(*ast.Ident)
+			if !isID || (info.Uses[id] != pw && info.Defs[id] != pw) || len(stack) < 2 {
+				return true
+			}
+			line := itoa(p.Fset.Position(id.Pos()).Line)
+			switch pn := stack[len(stack)-2].(type) {
+			case *ast.AssignStmt:
+				for _, l := range pn.Lhs {
+					if l == ast.Expr(id) {
+						msg = "line " + line + ": the password parameter is assigned a new value before it is hashed"
+					}
+				}
+			case *ast.SliceExpr:
+				if pn.X == ast.Expr(id) {
+					msg = "line " + line + ": only a part of the password is used (" + exprStr(pn) + "): every password with the same part verifies against the stored hash"
+				}
+			case *ast.IndexExpr:
+				if pn.X == ast.Expr(id) {
+					msg = "line " + line + ": single bytes of the password are picked (" + exprStr(pn) + ")"
+				}
+			case *ast.CallExpr:
+				if fn := callee(info, pn); fn != nil && fn.Pkg() != nil && (fn.Pkg().Path() == "strings" || fn.Pkg().Path() == "bytes" || fn.Pkg().Path() == "unicode/utf8") {
+					switch fn.Name() {
+					case "EqualFold", "Compare", "Contains", "HasPrefix", "HasSuffix", "RuneCountInString", "ValidString":
+					default:
+						msg = "line " + line + ": the password is transformed by " + fn.Pkg().Path() + "." + fn.Name() + " before it is hashed: different passwords give the same hash"
+					}
+				}
+			}
+			return true
+		})
+		c.Hold("R3d", refName(fi.Obj)+":whole-password", fi.Decl.Pos(), msg == "", msg)
+	})
 }
